@@ -5,6 +5,9 @@ package main
 import (
 	"context"
 	"fmt"
+	"github.com/hashicorp/hcl/v2"
+	"github.com/hashicorp/hcl/v2/hclsyntax"
+	"github.com/zclconf/go-cty/cty"
 	"math/rand"
 	"regexp"
 	"sort"
@@ -147,6 +150,7 @@ func runC06(run *Run, replay string) {
 			sc.W.Collect()
 			tbl := lcTable(sc.Src)
 			garbage := parserRangesMalformed(sc)
+			hookedAttributesOracle(run, sc, tbl, map[string]interface{}{"seed": run.Res.Seed, "base": bi, "scenario": si, "kind": sc.Kind, "src": string(sc.Src)})
 			loc := map[string]interface{}{"seed": run.Res.Seed, "base": bi, "scenario": si, "kind": sc.Kind, "src": string(sc.Src), "max_candidates": max}
 			for _, off := range cursorOffsets(rr, sc.Src, false, posN) {
 				pos, ok := tbl[off]
@@ -237,4 +241,77 @@ func runC06(run *Run, replay string) {
 			}
 		}
 	}
+}
+
+// hookedAttributesOracle: at the value of every written attribute whose schema (as the caller declared it,
+// at any nesting depth of static bodies) carries completion hooks, the list is not marked complete - a hook
+// may add more - and, for string-typed attributes, the registered hook's candidate is offered
+func hookedAttributesOracle(run *Run, sc *Scenario, tbl map[int]hcl.Pos, loc map[string]interface{}) {
+	f := sc.Main.Ctx.Files[sc.File]
+	if f == nil || sc.Main.Schema == nil {
+		return
+	}
+	body, ok := f.Body.(*hclsyntax.Body)
+	if !ok {
+		return
+	}
+	if _, diags := hclsyntax.ParseConfig(sc.Src, sc.File, hcl.InitialPos); diags.HasErrors() {
+		return // on recovered trees the cursor may not be attributed to the attribute at all
+	}
+	ctx := context.Background()
+	var walk func(b *hclsyntax.Body, bs *schema.BodySchema)
+	walk = func(b *hclsyntax.Body, bs *schema.BodySchema) {
+		if b == nil || bs == nil {
+			return
+		}
+		for name, a := range b.Attributes {
+			as := bs.Attributes[name]
+			if as == nil || len(as.CompletionHooks) == 0 {
+				continue
+			}
+			registered := false
+			for _, h := range as.CompletionHooks {
+				if h.Name == "hook1" {
+					registered = true
+				}
+			}
+			pos, ok := tbl[a.Expr.Range().Start.Byte]
+			if !ok || a.Expr.Range().Start.Byte < a.EqualsRange.End.Byte {
+				continue
+			}
+			d, _ := sc.W.Dec.Path(sc.Main.Path)
+			res := safeCall("CompletionAtPos", func() (interface{}, error) { return d.CompletionAtPos(ctx, sc.File, pos) })
+			run.Res.Evaluations++
+			run.Count("hooked_attribute_values")
+			if res.Panic != "" || res.Err != nil {
+				continue
+			}
+			cands := res.Val.(lang.Candidates)
+			q := Query{Name: "CompletionAtPos", Pos: &pos, File: sc.File}
+			if cands.IsComplete {
+				run.Violate(Violation{Key: "C06/complete-flag-although-hooks-are-attached", Rule: "a list is marked complete only when no matching candidate was left out and no hook may add more",
+					Func: "attrValueCompletionAtPos", Detail: fmt.Sprintf("attribute %q has %d completion hook(s), the list of %d candidate(s) is marked complete", name, len(as.CompletionHooks), len(cands.List)), Replay: locWith(loc, q)})
+			}
+			if tc, isTA := as.Constraint.(schema.TypeAwareConstraint); isTA && registered {
+				if t, ok := tc.ConstraintType(); ok && t == cty.String {
+					found := false
+					for _, c := range cands.List {
+						if c.Label == "hooked" {
+							found = true
+						}
+					}
+					if !found && len(cands.List) < 100 {
+						run.Violate(Violation{Key: "C06/hook-candidate-missing", Rule: "candidates of the attribute's completion hooks are offered", Func: "candidatesFromHooks",
+							Detail: fmt.Sprintf("attribute %q: the registered hook's candidate is not among the %d candidates", name, len(cands.List)), Replay: locWith(loc, q)})
+					}
+				}
+			}
+		}
+		for _, k := range b.Blocks {
+			if ks := bs.Blocks[k.Type]; ks != nil {
+				walk(k.Body, ks.Body)
+			}
+		}
+	}
+	walk(body, sc.Main.Schema)
 }
